@@ -190,6 +190,32 @@ def _organic(item, out):
                     out["viol"].append({"sig": f"C12/organic/{lab}/{bad.split('(')[0]}", "input": f"{can}|{info}|{opt}",
                                         "what": f"{can} (from {smi}) imported with options {opt}: {lab} variant {info} gives {bad}",
                                         "item": item, "detail": None})
+    # (c) import by atom-map number equals the index import renamed by the map (scattered, non-monotonic map numbers)
+    from . import c06 as C6
+
+    for can, iso in isos.items():
+        base = Chem.AddHs(iso)
+        n = base.GetNumAtoms()
+        import math
+
+        k = next(k for k in range(7, 7 + n + 2) if math.gcd(k, n) == 1)   # idx -> (idx*k+3) mod n is a permutation
+        for a in base.GetAtoms():
+            a.SetAtomMapNum(((a.GetIdx() * k + 3) % n) * 3 + 11)
+        for opt in ((False, False, True, False), (False, True, True, True)):
+            gi = _imp(converter(opt), base)
+            gm = _imp(converter((True,) + opt[1:]), base)
+            out["evals"] += 1
+            if isinstance(gi, str) or isinstance(gm, str):
+                out["viol"].append({"sig": "C12/organic/map-vs-index/raised", "input": f"{can}|{opt}",
+                                    "what": f"import of {can} raised: {gi if isinstance(gi, str) else gm}", "item": item, "detail": None})
+                continue
+            mp = {a.GetIdx(): a.GetAtomMapNum() for a in base.GetAtoms()}
+            bad = C6.same_graph(U.from_real(gm), U.from_real(gi).relabel(mp))
+            oc["map-vs-index"] = oc.get("map-vs-index", 0) + 1
+            if bad:
+                out["viol"].append({"sig": "C12/organic/map-vs-index/" + "+".join(bad), "input": f"{can}|{opt}",
+                                    "what": f"{can}: import by atom-map number differs from the renamed index import in {bad}",
+                                    "item": item, "detail": None})
     # distinct stereoisomers (distinct canonical isomeric SMILES) are unequal
     for opt, lst in per_iso.items():
         if not opt[2]:
